@@ -265,6 +265,92 @@ func StartPair(cfg PairConfig) (*Pair, error) {
 	return p, nil
 }
 
+// ExtraClient is an additional client process-equivalent talking to the same server.
+type ExtraClient struct {
+	Cmd    *clientCmd.Command
+	Listen map[string]string
+	intr   chan os.Signal
+}
+
+// UpstreamFor returns a fresh upstream object pointing at the pair's server (through the relay if any).
+func (p *Pair) UpstreamFor() upstream.Upstream {
+	cfg := p.Cfg
+	host := cfg.HostSpelling
+	if host == "" {
+		host = "127.0.0.1"
+	}
+	port := p.SrvPort
+	if p.Relay != nil {
+		port = p.Relay.Port
+	}
+	if p.URelay != nil {
+		port = p.URelay.Port
+	}
+	switch cfg.Carrier {
+	case CarTCP, CarTCPTLS:
+		return &upstream.Socket{Address: addr.MustParseAddress(fmt.Sprintf("%s://%s:%d", cfg.Carrier, host, port))}
+	case CarUnix, CarUnixTLS:
+		return &upstream.Socket{Address: addr.MustParseAddress(fmt.Sprintf("%s://%s", cfg.Carrier, p.unixPath))}
+	case CarHTTP, CarHTTPS:
+		path := cfg.HTTPPath
+		if path == "" {
+			path = "/ws/all"
+		}
+		return &upstream.Http{Address: addr.MustParseAddress(fmt.Sprintf("%s://%s:%d%s", cfg.Carrier, host, port, path))}
+	case CarUDP:
+		curl := fmt.Sprintf("udp://%s:%d", host, port)
+		if cfg.ClientSecret != "" {
+			curl = fmt.Sprintf("udp://:%s@%s:%d", cfg.ClientSecret, host, port)
+		}
+		return &upstream.Packet{Address: addr.MustParseAddress(curl)}
+	case CarDNS:
+		dom := cfg.Domain
+		if dom == "" {
+			dom = "example.org"
+		}
+		return &upstream.Dns{Address: addr.MustParseAddress(fmt.Sprintf("dns://%s?direct=false&dns=127.0.0.1:%d", dom, port))}
+	}
+	return nil
+}
+
+// AddClient starts another client (own listeners for the given channels) against the same server.
+func (p *Pair) AddClient(channels ...string) (*ExtraClient, error) {
+	up := p.UpstreamFor()
+	if up == nil {
+		return nil, fmt.Errorf("carrier %q cannot have a second client", p.Cfg.Carrier)
+	}
+	ec := &ExtraClient{Listen: map[string]string{}, intr: make(chan os.Signal, 1)}
+	ls := listener.Listeners{}
+	for _, ch := range channels {
+		port := Port()
+		ls = append(ls, &listener.SocketListener{AbstractListener: listener.AbstractListener{ProtoName: addr.ProtoName{Name: ch},
+			Address: addr.MustParseAddress(fmt.Sprintf("tcp://127.0.0.1:%d", port))}})
+		ec.Listen[ch] = HostPort(port)
+	}
+	ec.Cmd = &clientCmd.Command{
+		ClientConfig: cert.ClientConfig{Config: certConfig(p.Cfg.ClientCert, p.Cfg.ClientCA), InsecureSkipVerify: p.Cfg.ClientInsecure},
+		Upstream:     upstream.Upstreams{Data: []upstream.Upstream{up}},
+		ListenList:   ls,
+		Secure:       p.Cfg.MustSecure,
+	}
+	if err := ec.Cmd.Startup(ec.intr); err != nil {
+		return nil, err
+	}
+	return ec, nil
+}
+
+func (ec *ExtraClient) Dial(channel string) (net.Conn, error) {
+	return net.DialTimeout("tcp", ec.Listen[channel], 5*time.Second)
+}
+
+func (ec *ExtraClient) Close() {
+	defer func() { recover() }()
+	_ = ec.Cmd.Shutdown()
+}
+
+// UnixPath is the socket file of a unix carrier.
+func (p *Pair) UnixPath() string { return p.unixPath }
+
 // Dial opens a logical connection for channel through the client's listener.
 func (p *Pair) Dial(channel string) (net.Conn, error) {
 	if c, ok := p.StdioApp[channel]; ok {
